@@ -98,7 +98,13 @@ class QuicConnectionProtocol(asyncio.DatagramProtocol):
     async def ping(self) -> None:
         """
         Ping the peer and wait for the response.
+
+        If the connection is already closed a :class:`ConnectionError` is raised.
         """
+        if self._closed.is_set():
+            # the waiters were aborted when the connection terminated, nothing
+            # would ever complete a new one
+            raise ConnectionError
         waiter = self._loop.create_future()
         uid = id(waiter)
         self._ping_waiters[uid] = waiter
